@@ -655,7 +655,7 @@ impl World {
         for p in ps {
             if let Ok(d) = rm.get_publisher_details(p.clone()) {
                 let mut files: Vec<Value> = d.current_files.iter().map(|f| {
-                    json!([f.uri.to_string().replace(d.base_uri.as_str(), "~/"), self.a.canon.hash(&f.base64.to_hash().to_string())])
+                    json!([self.a.canon.text(&f.uri.to_string().replace(d.base_uri.as_str(), "~/")), self.a.canon.hash(&f.base64.to_hash().to_string())])
                 }).collect();
                 files.sort_by_key(|v| v.to_string());
                 pubs.insert(p.to_string(), json!({
@@ -855,6 +855,7 @@ impl World {
 
     fn msg_8181(&mut self, m: &publication::Message, base: Option<&str>) -> Value {
         let rel = |u: &uri::Rsync| match base { Some(b) if u.as_str().starts_with(b) => u.as_str().replacen(b, "~/", 1), _ => u.to_string() };
+
         match m {
             publication::Message::Query(publication::Query::List) => json!({"t": "list"}),
             publication::Message::Query(publication::Query::Delta(d)) => {
@@ -862,15 +863,15 @@ impl World {
                 for e in d.clone().into_elements() {
                     use publication::PublishDeltaElement as E;
                     els.push(match e {
-                        E::Publish(p) => json!(["pub", rel(p.uri()), self.a.canon.hash(&p.content().to_hash().to_string())]),
-                        E::Update(u) => json!(["upd", rel(u.uri()), self.a.canon.hash(&u.hash().to_string()), self.a.canon.hash(&u.content().to_hash().to_string())]),
-                        E::Withdraw(w) => json!(["wd", rel(w.uri()), self.a.canon.hash(&w.hash().to_string())]),
+                        E::Publish(p) => json!(["pub", self.a.canon.text(&rel(p.uri())), self.a.canon.hash(&p.content().to_hash().to_string())]),
+                        E::Update(u) => json!(["upd", self.a.canon.text(&rel(u.uri())), self.a.canon.hash(&u.hash().to_string()), self.a.canon.hash(&u.content().to_hash().to_string())]),
+                        E::Withdraw(w) => json!(["wd", self.a.canon.text(&rel(w.uri())), self.a.canon.hash(&w.hash().to_string())]),
                     });
                 }
                 json!({"t": "delta", "els": els})
             }
             publication::Message::Reply(publication::Reply::List(l)) => {
-                let mut fs: Vec<Value> = l.elements().iter().map(|e| json!([rel(e.uri()), self.a.canon.hash(&e.hash().to_string())])).collect();
+                let mut fs: Vec<Value> = l.elements().iter().map(|e| json!([self.a.canon.text(&rel(e.uri())), self.a.canon.hash(&e.hash().to_string())])).collect();
                 fs.sort_by_key(|v| v.to_string());
                 json!({"t": "listreply", "files": fs})
             }
@@ -1018,6 +1019,8 @@ impl World {
                 let r = s.krill.ca_manager().ta_proxy_signer_make_request(&actor, s.krill.runtime())?;
                 self.slots.push(TaMsg::Req(r.into()));
                 extra.insert("slot".into(), json!(self.slots.len() - 1));
+                let d = self.describe_slot(self.slots.len() - 1);
+                extra.insert("out".into(), d);
                 Ok("ok".into())
             }
             ["getreq", rest @ ..] => {
@@ -1027,6 +1030,8 @@ impl World {
                 let r = s.krill.ca_manager().ta_proxy_signer_get_request(s.krill.runtime())?;
                 self.slots.push(TaMsg::Req(r.into()));
                 extra.insert("slot".into(), json!(self.slots.len() - 1));
+                let d = self.describe_slot(self.slots.len() - 1);
+                extra.insert("out".into(), d);
                 Ok("ok".into())
             }
             ["sign", signer, slot, rest @ ..] => {
